@@ -14,11 +14,23 @@ ObsInit == Init /\ l = 1
 
 HasF(e, f) == f \in DOMAIN e
 
-FromPost(p, n) ==
-  [ns |-> p.ns, gcd |-> EmptyFn, fd |-> EmptyFn,
-   live |-> (DOMAIN p.live) \ {n},
-   dead |-> [x \in DOMAIN p.dead |-> 0],
-   prev |-> EmptyFn, watch |-> p.watch, wseq |-> p.wseq, cb |-> p.cb]
+\* old = the node's previous observed state, e = the event.  Ghost fields derived from the log:
+\*   dead[x] = clock of the evaluation at which x was first seen dead (the dead set changes only
+\*             inside update_nodes_liveness, whose post-state is logged);
+\*   gcd[x]  = heartbeat x had when its state disappeared in an evaluation (cleared on re-creation);
+\*   prev    = (live members -> max version) at the last evaluation.
+FromPost(old, e, n) ==
+  LET p == e.post
+      live2 == (DOMAIN p.live) \ {n}
+      removed == IF e.a = "Liveness" THEN (DOMAIN old.ns) \ (DOMAIN p.ns) ELSE {}
+      gcd1 == [x \in ((DOMAIN old.gcd) \cup removed) \ (DOMAIN p.ns) |->
+                 IF x \in removed THEN old.ns[x].hb ELSE old.gcd[x]]
+  IN [ns |-> p.ns, gcd |-> gcd1, fd |-> EmptyFn,
+      live |-> live2,
+      dead |-> [x \in DOMAIN p.dead |-> IF x \in DOMAIN old.dead THEN old.dead[x] ELSE e.clock],
+      prev |-> IF e.a = "Liveness"
+               THEN [x \in (live2 \cup {n}) \cap DOMAIN p.ns |-> p.ns[x].max] ELSE old.prev,
+      watch |-> p.watch, wseq |-> p.wseq, cb |-> p.cb, sched |-> DOMAIN p.sched]
 
 \* members for which this Process step applied an incremental delta to a mid-reset copy
 MidSet(n, m) ==
@@ -38,7 +50,7 @@ ObsNext ==
      ELSE
         /\ hist' = <<l, e>>
         /\ clock' = e.clock
-        /\ st' = IF HasF(e, "post") THEN [st EXCEPT ![e.n] = FromPost(e.post, e.n)] ELSE st
+        /\ st' = IF HasF(e, "post") THEN [st EXCEPT ![e.n] = FromPost(st[e.n], e, e.n)] ELSE st
         /\ net' = IF HasF(e, "out") THEN net \cup {e.out} ELSE net
         /\ panic' = (panic \/ (e.a = "Process" /\ HasF(e, "panic")))
         /\ mid' = IF e.a = "Process" /\ HasF(e, "msg")
@@ -58,4 +70,6 @@ ObsView == <<vars, l>>
 ObsDone ==
   LET d == TLCGet("stats").diameter IN
   IF d - 1 = Len(Rec) THEN TRUE ELSE Print(<<"OBSERVE-INCOMPLETE at event", d>>, FALSE)
+\* C07 (size half, observed): no produced datagram exceeds the UDP payload limit
+C07_Size == [][ (l <= Len(Rec) /\ "outlen" \in DOMAIN Rec[l]) => Rec[l].outlen <= 65507 ]_ovars
 ==============================================================================
